@@ -66,7 +66,7 @@ type c07op struct {
 }
 
 func c07Ops() []c07op {
-	ops := []c07op{{"get", 0}, {"search", 0}, {"rules", 0}, {"event", 0}, {"write", 0}, {"past", 0}, {"reload", 0}}
+	ops := []c07op{{"get", 0}, {"search", 0}, {"rules", 0}, {"event", 0}, {"write", 0}, {"past", 0}, {"past-boundary", 0}, {"reload", 0}}
 	for i := range c07Instants {
 		ops = append(ops, c07op{"advance", i})
 	}
@@ -282,6 +282,12 @@ func (in *c07inst) obsErr(via string, err error) *lib.Violation {
 }
 
 func (in *c07inst) item(now time.Time, past bool) (map[string]interface{}, bool) {
+	return in.itemAt(now, past, false)
+}
+
+// itemAt: boundary = the expiry is the current second itself (already expired:
+// an item is observable iff now < expiry in whole seconds).
+func (in *c07inst) itemAt(now time.Time, past, boundary bool) (map[string]interface{}, bool) {
 	var m map[string]interface{}
 	if in.rule {
 		m = map[string]interface{}{
@@ -293,6 +299,9 @@ func (in *c07inst) item(now time.Time, past bool) (map[string]interface{}, bool)
 	}
 	if past {
 		m["expires"] = float64(now.Unix() - 1)
+		if boundary {
+			m["expires"] = float64(now.Unix())
+		}
 		return m, true
 	}
 	in.enc.Put(m, now)
@@ -313,10 +322,10 @@ func (in *c07inst) Apply(opi int) *lib.Violation {
 			return fviol("C07/"+in.kind+"/reload-failed", fmt.Sprintf("[%s] reload at T0+%v failed: %v", in.cfg(), now.Sub(lib.T0), err), "ok", err.Error())
 		}
 		in.loc = loc
-	case "write", "past":
-		m, _ := in.item(now, op.Kind == "past")
+	case "write", "past", "past-boundary":
+		m, _ := in.itemAt(now, op.Kind != "write", op.Kind == "past-boundary")
 		id := "x"
-		if op.Kind == "past" {
+		if op.Kind != "write" {
 			id = "y"
 		}
 		var err error
@@ -325,9 +334,13 @@ func (in *c07inst) Apply(opi int) *lib.Violation {
 		} else {
 			_, err = in.loc.AddFact(in.ctx, id, core.Map(m))
 		}
-		if op.Kind == "past" {
+		if op.Kind != "write" {
 			if err == nil {
-				return fviol("C07/"+in.kind+"/already-expired-write-accepted", fmt.Sprintf("[%s] writing an item whose expiry is one second in the past succeeded", in.cfg()), "error", "ok")
+				when := "one second in the past"
+				if op.Kind == "past-boundary" {
+					when = "the current second"
+				}
+				return fviol("C07/"+in.kind+"/already-expired-write-accepted", fmt.Sprintf("[%s] writing an item whose expiry is %s succeeded", in.cfg(), when), "error", "ok")
 			}
 			if _, have := lib.Pairs(in.ctx, in.store, "L")["y"]; have {
 				return fviol("C07/"+in.kind+"/rejected-expired-write-left-in-storage", fmt.Sprintf("[%s] rejected already-expired write is in storage", in.cfg()), nil, nil)
